@@ -258,7 +258,9 @@ func cmdCheck(args []string) int {
 				known = true
 				if !matched[f.text] {
 					matched[f.text] = true
-					fmt.Printf("KNOWN-FINDING: property=%s %s\n", id, strings.TrimSpace(strings.TrimPrefix(f.text, "finding:")))
+					txt := strings.TrimSpace(strings.TrimPrefix(f.text, "finding:"))
+					txt = strings.TrimSpace(strings.TrimPrefix(txt, "property="+id))
+					fmt.Printf("KNOWN-FINDING: property=%s %s\n", id, txt)
 				}
 			}
 		}
